@@ -111,3 +111,43 @@ Proof. induction l as [|a l IH]; unfold find_idx; fold find_idx; cbn [length]; [
 
 Lemma seg_bound_gen (l fs : list frm) a n : fs = seg l a n -> a <= length l -> a + length fs <= length l.
 Proof. intros H Ha. subst fs. rewrite seg_length. lia. Qed.
+
+Lemma stored_app (l st fs : list frm) b c :
+  st = seg l b (length st) -> fs = seg l c (length fs) -> c = b + length st ->
+  st ++ fs = seg l b (length (st ++ fs)).
+Proof. intros H1 H2 ->. rewrite app_length, <- seg_app, <- H1, <- H2. reflexivity. Qed.
+
+Lemma stored_commit (l st x : list frm) b :
+  st = seg l b (length st) -> b + length st <= length l -> st = seg (l ++ x) b (length st).
+Proof. intros H1 H2. rewrite seg_app_log by exact H2. exact H1. Qed.
+
+Lemma seg_at_end (l fs : list frm) n : fs = seg l (length l) n -> fs = [].
+Proof. intros ->. apply seg_past. lia. Qed.
+
+Lemma commit_prefix (l dl d : list frm) f b :
+  b <= length l -> skipn b l = firstn (length l - b) dl -> dl = d ++ [f] -> length dl = length l - b + 1 ->
+  skipn b (l ++ [f]) = firstn (length (l ++ [f]) - b) dl.
+Proof.
+  intros Hb Hc Hd Hl. rewrite skipn_app_le by exact Hb. rewrite Hc. subst dl.
+  rewrite app_length in Hl. cbn in Hl. assert (Hd : length d = length l - b) by lia.
+  rewrite app_length. cbn [length]. replace (length l + 1 - b) with (S (length d)) by lia.
+  rewrite <- Hd. rewrite firstn_snoc, firstn_succ_snoc. reflexivity.
+Qed.
+
+Lemma seen_step (l sn : list frm) cur c :
+  sn = seg l (cur - length sn) (length sn) -> length sn <= cur -> cur + c <= length l ->
+  sn ++ seg l cur c = seg l (cur + c - length (sn ++ seg l cur c)) (length (sn ++ seg l cur c)) /\
+  length (sn ++ seg l cur c) <= cur + c /\
+  cur + c - length (sn ++ seg l cur c) = cur - length sn.
+Proof.
+  intros H1 H2 H3. rewrite app_length, (seg_length_le l cur c H3).
+  replace (cur + c - (length sn + c)) with (cur - length sn) by lia.
+  split; [|split; lia].
+  rewrite H1 at 1. rewrite <- (seg_app l (cur - length sn) (length sn) c).
+  replace (cur - length sn + length sn) with cur by lia. reflexivity.
+Qed.
+
+Lemma seen_commit (l x sn : list frm) cur :
+  sn = seg l (cur - length sn) (length sn) -> length sn <= cur -> cur <= length l ->
+  sn = seg (l ++ x) (cur - length sn) (length sn).
+Proof. intros H1 H2 H3. rewrite seg_app_log by lia. exact H1. Qed.
